@@ -370,6 +370,7 @@ DEFAULT_PROFILE = dict(
     max_omitted=3,
     p_hostile_doc=0.0,
     route_result_kinds=None,
+    p_route_container_result=0.0,
     route_alias_user_only=False,
 )
 
@@ -1064,6 +1065,30 @@ class Gen:
         if slot != 'arg' and self.p.get('route_result_kinds'):
             kinds = self.p['route_result_kinds']
         k = r.choice(kinds)
+        if slot == 'result' and self.p.get('p_route_container_result') and \
+                r.random() < self.p['p_route_container_result']:
+            # nested containers as a route result: List(List(String)), Map(String, List(T?)), ...
+            t = None
+            if r.random() < 0.5:
+                # lists nested two or three deep around a primitive or user type
+                cands = self.user_types(ns, ('struct', 'union'))
+                inner = ref(*[(d.ns, d.name) for d in [r.choice(cands)]][0]) if cands and r.random() < 0.3 \
+                    else self.prim_type()
+                t = inner
+                for lvl in range(r.choice([2, 2, 3])):
+                    if lvl and r.random() < 0.2 and not self.m.is_nullable(t):
+                        t = t.copy(nullable=True)
+                    t = T('list', args={'item': t, 'min_items': None, 'max_items': None})
+            for _ in range(6):
+                if t is not None and t.kind in ('list', 'map'):
+                    break
+                t = self.type_expr(ns, 0, allow_nullable=False)
+            else:
+                t = T('list', args={'item': T('list', args={'item': self.prim_type(), 'min_items': None,
+                                                            'max_items': None}),
+                                    'min_items': None, 'max_items': None})
+            self.m.feature('route_container_result')
+            return t
         if k == 'void':
             return VOID
         if k == 'prim':
